@@ -7,7 +7,7 @@ use complgen::dfa::{DFA, Inp, verif_hooks as dh};
 use complgen::tables::verif_hooks as th;
 use std::collections::{BTreeMap, BTreeSet};
 
-#[derive(Default, Debug)]
+#[derive(Default, Debug, Clone)]
 struct Block {
     literals: Option<Vec<String>>,
     /// name -> key -> (key -> value)   for  name[k]="([a]=b ..)"
@@ -17,6 +17,45 @@ struct Block {
     scalars: BTreeMap<String, String>,
     calls_shape: Option<String>,
     body: Vec<String>,
+    /// names this function declares with `local` (a callee sees the caller's variable of the
+    /// same name unless it declares its own: bash scoping is dynamic)
+    declared: BTreeSet<String>,
+}
+
+impl Block {
+    /// the tables a callee of `self` sees when `self` was called from `caller`: its own
+    /// declarations, the caller's for every name it does not declare; an assignment
+    /// `name[k]=..` to an undeclared name lands in the caller's table
+    fn seen_from(&self, caller: &Block) -> Block {
+        let mut eff = caller.clone();
+        eff.calls_shape = self.calls_shape.clone();
+        eff.body = self.body.clone();
+        for n in &self.declared {
+            eff.flat.remove(n);
+            eff.nested.remove(n);
+            eff.scalars.remove(n);
+            if n == "literals" {
+                eff.literals = None;
+            }
+        }
+        if self.literals.is_some() {
+            eff.literals = self.literals.clone();
+        }
+        for (k, v) in &self.flat {
+            eff.flat.insert(k.clone(), v.clone());
+        }
+        for (k, v) in &self.scalars {
+            eff.scalars.insert(k.clone(), v.clone());
+        }
+        for (k, v) in &self.nested {
+            let e = eff.nested.entry(k.clone()).or_default();
+            for (kk, vv) in v {
+                e.insert(*kk, vv.clone());
+            }
+        }
+        eff.declared.extend(self.declared.iter().cloned());
+        eff
+    }
 }
 
 /// parse `[k]=v [k]="v w"` ...
@@ -129,6 +168,14 @@ fn parse_script(script: &str, errs: &mut Vec<(String, String)>) -> (BTreeMap<Str
         let (_, b) = cur.as_mut().unwrap();
         b.body.push(line.to_string());
         let t = line.trim_start();
+        if let Some(rest) = t.strip_prefix("local ") {
+            // `local [-a|-A] name[=..]`
+            let r = rest.strip_prefix("-a ").or_else(|| rest.strip_prefix("-A ")).unwrap_or(rest);
+            let name: String = r.chars().take_while(|c| c.is_ascii_alphanumeric() || *c == '_').collect();
+            if !name.is_empty() {
+                b.declared.insert(name);
+            }
+        }
         if let Some(rest) = t.strip_prefix("local -a literals=(") {
             // the array may span lines if a literal contains a newline: join until the closing paren
             let mut acc = rest.to_string();
@@ -327,19 +374,23 @@ pub fn check_text(dfa: &DFA, view: &ShellView, errs: &mut Vec<(String, String)>)
             continue;
         };
         let exp_lits: Vec<String> = dump.all_literals.iter().map(|(_, l, _)| l.clone()).collect();
-        if b.literals.as_ref() != Some(&exp_lits) {
-            errs.push(("subword_literals".into(), format!("literals array of {name} = {:?}, literal table = {exp_lits:?}", b.literals)));
-        }
-        let tabs = match &b.calls_shape {
+        // the shared matcher is called from this function (possibly through a shape function),
+        // which was called from _cmd: it reads every table through bash's dynamic scoping
+        let seen = b.seen_from(main);
+        let seen = match &b.calls_shape {
             Some(shape) => match blocks.get(shape) {
-                Some(s) => s,
+                Some(s) => s.seen_from(&seen),
                 None => {
                     errs.push(("subword_function".into(), format!("{name} calls the undefined {shape}")));
                     continue;
                 }
             },
-            None => b,
+            None => seen,
         };
+        if seen.literals.as_ref() != Some(&exp_lits) {
+            errs.push(("subword_literals".into(), format!("literals array seen by the matcher in {name} = {:?}, literal table = {exp_lits:?}", seen.literals)));
+        }
+        let tabs = &seen;
         let mut sub_errs = vec![];
         cmp_tables(&name, tabs, dump, &mut sub_errs);
         for (f, m) in sub_errs {
